@@ -494,3 +494,110 @@ Proof.
     destruct (mfold (kstep (year_g A)) ys' acc) as [r'| |] eqn:E2; try exact H; try exact I.
   apply zview_equiv; [exact H| |]; eapply mfold_kstep_nodup; eassumption.
 Qed.
+
+(* ------------------------------------------------------------------ *)
+(* aggregate gains under exact arithmetic: grouped sums, any order       *)
+
+Definition zval (y : Z) (l : list (Z * Qc)) : Qc := match zlookup y l with Some v => v | None => 0%Qc end.
+Definition has_year (y : Z) (L : list (Z * Qc)) : bool := existsb (fun yg => Z.eqb (fst yg) y) L.
+Definition ysum (y : Z) (L : list (Z * Qc)) : Qc :=
+  qtotal (map snd (filter (fun yg => Z.eqb (fst yg) y) L)).
+
+Lemma year_fold_exact L : forall acc,
+  exists r, mfold (year_acc exact) L acc = Ok r /\
+            (forall y, zlookup y r = if has_year y L then Some (zval y acc + ysum y L)%Qc else zlookup y acc) /\
+            (NoDup (map fst acc) -> NoDup (map fst r)).
+Proof.
+  induction L as [|[y0 g0] L IH]; intros acc.
+  - exists acc. split; [reflexivity|]. split; [intros y; reflexivity|tauto].
+  - cbn [mfold]. unfold year_acc at 1. cbn [a_add exact bind]. fold (zval y0 acc).
+    destruct (IH (zupdate y0 (zval y0 acc + g0)%Qc acc)) as [r [E [Hl Hn]]].
+    exists r. split; [exact E|]. split.
+    + intros y. rewrite Hl. unfold has_year, ysum. cbn [existsb filter fst].
+      fold (has_year y L). fold (ysum y L).
+      destruct (Z.eqb_spec y0 y) as [->|Hne]; cbn [orb].
+      * unfold zval at 1. rewrite zlookup_zupdate_eq.
+        cbn [map snd qtotal fold_right]. fold (qtotal (map snd (filter (fun yg => Z.eqb (fst yg) y) L))).
+        fold (ysum y L). destruct (has_year y L) eqn:Eh.
+        -- f_equal. ring.
+        -- f_equal. unfold ysum. assert (Hnil : filter (fun yg : Z * Qc => fst yg =? y) L = []).
+           { destruct (filter (fun yg : Z * Qc => fst yg =? y) L) as [|a t] eqn:Ef; [reflexivity|].
+             exfalso. assert (Hin : In a (a :: t)) by (left; reflexivity). rewrite <- Ef in Hin.
+             apply filter_In in Hin. destruct Hin as [Hin Ha].
+             assert (has_year y L = true) by (unfold has_year; apply existsb_exists; eauto).
+             congruence. }
+           fold (ysum y L). unfold ysum. rewrite Hnil. cbn. ring.
+      * unfold zval at 1. rewrite zlookup_zupdate_neq by (intros E'; apply Hne; symmetry; exact E').
+        fold (zval y acc). destruct (has_year y L); reflexivity.
+    + intros Ha. apply Hn. apply zupdate_nodup. exact Ha.
+Qed.
+
+Lemma mfold_app_ho {S X} (f : S -> X -> res S) l l' s :
+  mfold f (l ++ l') s = (s' <- mfold f l s ;; mfold f l' s').
+Proof.
+  revert s. induction l as [|x r IH]; intros s; cbn [app mfold bind]; [reflexivity|].
+  destruct (f s x); cbn [bind]; try reflexivity. apply IH.
+Qed.
+
+Definition all_years (m : list (N * (Qc * list (Z * Qc)))) : list (Z * Qc) :=
+  flat_map (fun e => snd (snd e)) m.
+
+Lemma gains_exact_unfold m : forall tot years,
+  exists r, mfold (gains_step exact) m (tot, years) = Ok ((tot + qtotal (map (fun e => fst (snd e)) m))%Qc, r) /\
+            mfold (year_acc exact) (all_years m) years = Ok r.
+Proof.
+  induction m as [|[k [g ys]] m IH]; intros tot years.
+  - exists years. cbn [mfold map qtotal fold_right all_years flat_map]. split; [f_equal; f_equal; ring|reflexivity].
+  - cbn [mfold]. unfold gains_step at 1. cbn [a_add exact bind].
+    destruct (year_fold_exact ys years) as [y1 [E1 _]]. rewrite E1. cbn [bind].
+    destruct (IH (tot + g)%Qc y1) as [r [E2 E3]]. exists r. split.
+    + rewrite E2. f_equal. f_equal. cbn [map fst snd qtotal fold_right].
+      fold (qtotal (map (fun e : N * (Qc * list (Z * Qc)) => fst (snd e)) m)). ring.
+    + unfold all_years. cbn [flat_map snd]. rewrite mfold_app_ho. fold (all_years m). rewrite E1. cbn [bind]. exact E3.
+Qed.
+
+Lemma filter_perm {X} (f : X -> bool) l l' : Permutation l l' -> Permutation (filter f l) (filter f l').
+Proof.
+  induction 1 as [|x l l' _ IH|x y l|l l' l'' _ IH1 _ IH2]; cbn [filter].
+  - constructor.
+  - destruct (f x); [constructor|]; exact IH.
+  - destruct (f x), (f y); try reflexivity. apply perm_swap.
+  - eapply Permutation_trans; eassumption.
+Qed.
+Lemma existsb_perm {X} (f : X -> bool) l l' : Permutation l l' -> existsb f l = existsb f l'.
+Proof.
+  induction 1 as [|x l l' _ IH|x y l|l l' l'' _ IH1 _ IH2]; cbn [existsb].
+  - reflexivity.
+  - rewrite IH. reflexivity.
+  - destruct (f x), (f y); reflexivity.
+  - congruence.
+Qed.
+Lemma flat_map_perm {X Y} (f : X -> list Y) l l' : Permutation l l' -> Permutation (flat_map f l) (flat_map f l').
+Proof.
+  induction 1 as [|x l l' _ IH|x y l|l l' l'' _ IH1 _ IH2]; cbn [flat_map].
+  - constructor.
+  - apply Permutation_app_head. exact IH.
+  - rewrite !app_assoc. apply Permutation_app_tail. apply Permutation_app_comm.
+  - eapply Permutation_trans; eassumption.
+Qed.
+
+(* cumulative_gains.rs calc_cumulative_capital_gains under exact arithmetic:
+   the printed total and per-year totals do not depend on the order in which
+   the securities' entries are visited (grouped commutative sums) *)
+Lemma gains_exact_perm m m' : Permutation m m' -> gains_out exact m = gains_out exact m'.
+Proof.
+  intros Hp. unfold gains_out, gains_in_order.
+  destruct (gains_exact_unfold m 0%Qc []) as [r [E Er]].
+  destruct (gains_exact_unfold m' 0%Qc []) as [r' [E' Er']].
+  rewrite E, E'. cbn [bind]. f_equal. unfold gains_view. cbn [fst snd]. f_equal.
+  - f_equal. apply qtotal_perm. apply Permutation_map. exact Hp.
+  - destruct (year_fold_exact (all_years m) []) as [r1 [E1 [Hl1 Hn1]]].
+    destruct (year_fold_exact (all_years m') []) as [r2 [E2 [Hl2 Hn2]]].
+    rewrite Er in E1. rewrite Er' in E2. inversion E1; inversion E2; subst r1 r2.
+    change (zview r = zview r'). apply zview_equiv; [|apply Hn1; constructor|apply Hn2; constructor].
+    assert (Hpy : Permutation (all_years m) (all_years m')) by (apply flat_map_perm; exact Hp).
+    intros y. rewrite Hl1, Hl2. unfold has_year, ysum.
+    rewrite (existsb_perm _ _ _ Hpy).
+    rewrite (qtotal_perm _ _ (Permutation_map snd (filter_perm (fun yg => Z.eqb (fst yg) y) _ _ Hpy))).
+    reflexivity.
+Qed.
